@@ -31,10 +31,12 @@ VARIABLES nextSub, inSlot, retryQ, ppQ, pp, bps, nBp, reg, leader, view, log, ou
           txn,      \* [epoch, seq : [Parts -> Nat]]
           rbs,      \* set of retryBatch goroutines
           pstate,   \* broker: [Parts -> [epoch, next, win]]   next = last sequence + 1
-          hist      \* environment actions taken so far (behaviour generation; hidden by VIEW)
+          hist,     \* environment actions taken so far (behaviour generation; hidden by VIEW)
+          steps     \* EVERY action taken so far, in order, with the identity a hook can recognise (conducted
+                    \* replay, DESIGN.md 3.3); stays <<>> unless an instance overrides Record; hidden by VIEW
 
 vars == <<nextSub, inSlot, retryQ, ppQ, pp, bps, nBp, reg, leader, view, log, outcome, bad,
-          inFlight, faults, moves, txn, rbs, pstate, hist>>
+          inFlight, faults, moves, txn, rbs, pstate, hist, steps>>
 ModelView == <<nextSub, inSlot, retryQ, ppQ, pp, bps, nBp, reg, leader, view, log, outcome, bad,
           inFlight, faults, moves, txn, rbs, pstate>>
 
@@ -66,6 +68,7 @@ Init ==
   /\ rbs = {}
   /\ pstate = [p \in Parts |-> [epoch |-> 0, next |-> 0, win |-> <<>>]]
   /\ hist = <<>>
+  /\ steps = <<>>
 
 -----------------------------------------------------------------------------
 RECURSIVE ApplyOutcome(_, _, _, _)
@@ -433,16 +436,50 @@ LeaderMove ==
   /\ moves' = moves + 1
   /\ UNCHANGED <<nextSub, inSlot, retryQ, ppQ, pp, bps, nBp, reg, view, log, outcome, bad, inFlight, faults, txn, rbs, pstate>>
 
+\* ---- full action log for conducted replay. Record is FALSE here (steps stays empty, nothing changes for the
+\* model-checking and environment-behaviour instances); cfg/MCProducer.conduct.*.cfg substitute Record <- RecordOn.
+Record == FALSE
+Log(r) == steps' = IF Record THEN Append(steps, r) ELSE steps
+MsgRec(a, m) == [a |-> a, id |-> m.id, part |-> m.part, retries |-> m.retries, flag |-> m.flag]
+LastHist == hist'[Len(hist')]
+
+LSubmit == Submit /\ Log([a |-> "submit", id |-> nextSub, part |-> PartOf[nextSub]])
+LRhDeq == RhDeq /\ Log(MsgRec("rhdeq", Head(retryQ)))
+LDispRecv == DispRecv /\ Log(MsgRec("disp", inSlot[1]))
+LPpStart(p) == PpStart(p) /\ Log([a |-> "ppstart", part |-> p])
+LPpRecv(p) == PpRecv(p) /\ Log([MsgRec("pprecv", Head(ppQ[p])) EXCEPT !.part = p] @@ [hwm |-> pp[p].hwm])
+LPpStep(p) == PpStep(p) /\ Log([a |-> "ppstep", part |-> p, op |-> Head(pp[p].todo)[1], level |-> pp[p].hwm - 1,
+                                  nobp |-> pp[p].bp = 0,
+                                  to |-> IF Head(pp[p].todo)[1] = "send" THEN Head(pp[p].todo)[2] ELSE 0])
+\* roll: the epoch-rollover branch of BpRecv (the buffer is forced out, the message stays in the slot and is handled by
+\* the next BpRecv of this worker: one bp.recv hook in the code)
+BpRecvRolls(i) == LET m == bps[i].in[1] B == bps[i] IN
+                  /\ m.flag # "syn" /\ ~(B.closing \/ B.cur[m.part])
+                  /\ Idem /\ B.bepoch # m.ep /\ ~BufEmpty(B.buffer)
+\* (with an EMPTY buffer the model only adopts the new epoch; the code hands the empty buffer to the bridge all the same -
+\* waitForSpace with forceRollover - so an empty produce request makes a round trip to the broker: harmless, not modelled,
+\* and let through by the conductor without a step of its own)
+LBpRecv(i) == BpRecv(i) /\ Log(MsgRec("bprecv", bps[i].in[1]) @@ [bp |-> i, broker |-> bps[i].broker, roll |-> BpRecvRolls(i),
+                                    ids |-> [p \in Parts |-> Ids(bps[i].buffer[p])]])
+LBpSend(i) == BpSend(i) /\ Log([a |-> "bpsend", bp |-> i, broker |-> bps[i].broker, ids |-> [p \in Parts |-> Ids(bps[i].buffer[p])]])
+LBrokerHandle(i) == BrokerHandle(i) /\ Log([a |-> "handle", bp |-> i, broker |-> bps[i].broker, conn |-> LastHist.conn,
+                                             kinds |-> LastHist.kinds])
+LBpResp(i) == BpResp(i) /\ Log([a |-> "bpresp", bp |-> i, broker |-> bps[i].broker, err |-> bps[i].out.res = "connerr"])
+LRbStart(r) == RbStart(r) /\ Log([a |-> "rbstart", part |-> r.part, id |-> Head(r.ms).id, exhausted |-> Head(r.ms).retries >= RetryMax])
+LRbSend(r) == RbSend(r) /\ Log([a |-> "rbsend", part |-> r.part, bp |-> r.target, broker |-> bps[r.target].broker,
+                                 ids |-> [p \in Parts |-> IF p = r.part THEN Ids(r.ms) ELSE <<>>]])
+LLeaderMove == LeaderMove /\ Log([a |-> "move", part |-> LastHist.part, to |-> LastHist.to])
+
 Internal ==
-  \/ RhDeq \/ DispRecv
-  \/ \E p \in Parts : PpStart(p) \/ PpRecv(p) \/ PpStep(p)
-  \/ \E i \in BpIds : BpRecv(i) \/ BpSend(i) \/ BpResp(i)
-  \/ \E r \in rbs : RbStart(r) \/ RbSend(r)
+  \/ LRhDeq \/ LDispRecv
+  \/ \E p \in Parts : LPpStart(p) \/ LPpRecv(p) \/ LPpStep(p)
+  \/ \E i \in BpIds : LBpRecv(i) \/ LBpSend(i) \/ LBpResp(i)
+  \/ \E r \in rbs : LRbStart(r) \/ LRbSend(r)
 
 Next ==
-  \/ Submit
-  \/ \E i \in BpIds : BrokerHandle(i)
-  \/ LeaderMove
+  \/ LSubmit
+  \/ \E i \in BpIds : LBrokerHandle(i)
+  \/ LLeaderMove
   \/ (Internal /\ UNCHANGED hist)
 
 Spec == Init /\ [][Next]_vars
